@@ -613,6 +613,22 @@ package keeper
 //@   ensures deposit_inv: err == nil && old(depositInv) ==> depositInv
 //@ end
 
+// Genesis import of one binding (C12): the binding is filed under (service, provider) as listed, and EVERY imported
+// binding - not only a provider's first - is entered in its owner's binding index, with the provider registered under
+// the owner and the parsed pricing stored; owner-side queries answer from these indexes.
+//@ func Keeper.SetServiceBindingForGenesis(ctx, svcBinding)
+//@   property C12
+//@   returns err
+//@   let pv = addr(svcBinding.Provider)
+//@   let ow = addr(svcBinding.Owner)
+//@   modifies bindings, pricings, owners, ownerProv, ownerBind
+//@   ensures filed: err == nil ==> has(bindings, svcBinding.ServiceName, pv) && BIND(svcBinding.ServiceName, pv) == svcBinding
+//@   ensures owner_indexes: err == nil ==> has(ownerBind, ow, svcBinding.ServiceName, pv) && has(owners, pv) && ownerOf(pv) == ow && has(ownerProv, ow, pv)
+//@   ensures priced: err == nil ==> has(pricings, svcBinding.ServiceName, pv)
+//@   ensures others: forall s:Str :: forall p:Bytes :: (s != svcBinding.ServiceName || p != pv) ==> has(bindings, s, p) == old(has(bindings, s, p)) && BIND(s, p) == old(BIND(s, p))
+//@   ensures rejected: err != nil ==> bindings == old(bindings) && ownerBind == old(ownerBind) && owners == old(owners)
+//@ end
+
 // queue iterations of the end blocker (helpers with callbacks; inlined into EndBlocker together with the closures)
 //@ define depNonneg = forall s:Str :: forall p:Bytes :: forall d:Str :: has(bindings, s, p) ==> amt(BIND(s, p).Deposit, d) >= 0
 //@ define endBlockInv = has(prm) && types.paramsOK(get(prm)) && pricingsWF && !isnil(SLASHFRAC) && raw(SLASHFRAC) >= 0 && raw(SLASHFRAC) <= DEC_ONE && ufb("denom_valid", BASE) && depNonneg
